@@ -290,8 +290,11 @@ class Loops:
         shape, cursor, bound_by_test = None, None, False
         if isinstance(test, ast.Compare) and len(test.ops) == 1:
             l, r = test.left, test.comparators[0]
+            stored_in_loop = {x.id for x in ast.walk(loop) if isinstance(x, ast.Name) and isinstance(x.ctx, (ast.Store, ast.Del))}
             if isinstance(test.ops[0], ast.Lt) and isinstance(l, ast.Name) and src(r).startswith('len('):
                 shape, cursor, bound_by_test = 'cursor', l.id, True
+            elif isinstance(test.ops[0], ast.Lt) and isinstance(l, ast.Name) and isinstance(r, ast.Name) and r.id not in stored_in_loop:
+                shape, cursor, bound_by_test = 'cursor', l.id, True        # a counter that runs up to a bound the loop does not change
             elif isinstance(test.ops[0], ast.Gt) and src(l).startswith('len(') and isinstance(l, ast.Call) \
                     and isinstance(l.args[0], ast.Name) and lin_const(lin(r, {})) is not None:
                 shape, cursor, bound_by_test = 'shrink', l.args[0].id, True
@@ -344,6 +347,8 @@ class Loops:
                                     progressed = True
                         else:
                             env[name] = lin(st.value, env)
+                            if self._nonempty_bytes(fi, st.value):
+                                facts.append(({'len(%s)' % name: 1}, 1))        # a digest: at least one octet
                             if isinstance(st.value, ast.Subscript) and isinstance(st.value.slice, ast.Slice):
                                 env[('slice', name)] = st.value
                             else:
